@@ -480,7 +480,63 @@ def run_impl(case, rep, fixed_points=None):
     except Exception as e:  # noqa
         for r in rows:
             r["error"] = f"normal raised {type(e).__name__}: {str(e)[:160]}"
+    if case["params"] and fixed_points is None:
+        rows += evaluated_rows(case, rep, tp, torch, B, solid, envs, rows)
     return rows
+
+
+def evaluated_rows(case, rep, tp, torch, B, solid, envs, rows):
+    """normals asked of the PARTIALLY EVALUATED boundary object `B(**values)` (one step, or one variable after the other):
+    the same points with the values of their parameter row fixed, plus own samples of the evaluated object.
+    `normal(B(ρ))(p) = normal(B)(p, ρ)` (Lean: peval_normal), so these rows go through the same oracles and model comparison."""
+    import random
+    lrng = random.Random(case["seed"] + 1)
+    var = solid.vars()[0]
+    out = []
+    for ei, env in enumerate(envs):
+        vals = {p_: torch.tensor([[float(env[p_][0])]], dtype=torch.float32) for p_ in case["params"]}
+        try:
+            if len(vals) > 1 and lrng.random() < 0.5:
+                Be = B
+                for k_ in lrng.sample(sorted(vals), len(vals)):      # one variable after the other
+                    Be = Be(**{k_: vals[k_]})
+                how = "steps"
+            else:
+                Be = B(**vals)
+                how = "once"
+        except Exception:
+            rep.count("evaluation-raised")          # B(**values) itself belongs to C17
+            continue
+        rep.count("evaluated-boundary:" + how)
+        mine = [dict(p=r["p"], env=ei, src=r["src"] + "@eval") for r in rows if r["env"] == ei and "error" not in r][:5]
+        try:
+            torch.manual_seed(case["seed"] + 7 + ei)
+            s_ = common.call_with_timeout(3, Be.sample_random_uniform, n=3)
+            t_ = s_.as_tensor
+            if tuple(t_.shape) == (3, geomgen.DIM[var]) and bool(torch.isfinite(t_).all()):
+                mine += [dict(p=r_, env=ei, src="random@eval") for r_ in t_.tolist()]
+        except Exception:
+            rep.count("sampler-raised:random@eval")
+        if not mine:
+            continue
+        pts = tp.spaces.Points(torch.tensor([r["p"] for r in mine], dtype=torch.float32), solid.space(tp))
+        try:
+            nv = torch.as_tensor(Be.normal(pts))
+            if tuple(nv.shape) != (len(mine), geomgen.DIM[var]):
+                for r in mine:
+                    r["error"] = f"normal of the evaluated boundary returned shape {tuple(nv.shape)} for {len(mine)} points"
+            else:
+                for r, v_ in zip(mine, nv.to(torch.float64).tolist()):
+                    r["n"] = v_
+        except Exception as e:  # noqa
+            for r in mine:
+                r["error"] = f"normal of the evaluated boundary B(**{ {k_: float(v_) for k_, v_ in vals.items()} }) raised {type(e).__name__}: {str(e)[:160]}"
+        out += mine
+    return out
+
+
+def is_sampler(src):
+    return src.split("@")[0] in SAMPLER_SOURCES
 
 
 # ---------------------------------------------------------------------------------------------
@@ -714,7 +770,7 @@ def judge(rep, cs, solid, ent, replies):
     inp = dict(dom=cs["dom"], wrap=cs["wrap"], expression=f"{cs['wrap']} {solid.tokens()}", params=cs["params"],
                env=cs["envs"][r["env"]], point=[str(to_fr(a)) for a in r["p"]], point_float=r["p"], source=r["src"],
                call_row0=dict(point=[str(to_fr(a)) for a in ent["row0"]["p"]], env=cs["envs"][ent["row0"]["env"]]))
-    if r["src"] in SAMPLER_SOURCES:
+    if is_sampler(r["src"]) or "@eval" in r["src"]:
         inp["case"] = cs          # sampler-returned point: the replay re-runs the samplers of this case (seeded)
     rep.count("points")
     rep.count("src:" + r["src"].split("-")[0])
@@ -733,7 +789,7 @@ def judge(rep, cs, solid, ent, replies):
             rep.fail(f"normal() returned {nv} of length {ln:.6g}, not a unit vector ({r['src']})", inp, detail=dict(normal=nv), finding=fk)
         st = ent["step"]
         on_boundary = False
-        from_sampler = r["src"] in SAMPLER_SOURCES
+        from_sampler = is_sampler(r["src"])
         if st is None:
             rep.count("step-skipped:" + ent.get("skip", "?"))
             if ent.get("skip") == "off-boundary" and from_sampler:
@@ -826,7 +882,9 @@ def bad_interval_cases(ctx):
         if ub > 0:
             variants.append((dep, ["t"], [{"t": [str(Fr(rng.randint(1, 16), 16))]} for _ in range(rng.choice([1, 2]))]))
         for node, params, envs in variants:
-            out.append(dict(id=10000 + len(out), mode="badint-fixed", wrap="bdry", dom=node.describe(), params=params,
+            wraps = ["bdry"] if not params else ["bdry", "bdryL", "bdryR"]
+            for wrap_ in wraps:
+              out.append(dict(id=10000 + len(out), mode="badint-fixed", wrap=wrap_, dom=node.describe(), params=params,
                             envs=[{k_: [str(a) for a in v_] for k_, v_ in e.items()} for e in envs], n=rng.choice([4, 7, 8]),
                             seed=rng.randint(0, 2 ** 31 - 1), m=2))
     # fixed touching configurations built with the `contained` / `disjoint` flags
@@ -846,7 +904,7 @@ def run(ctx, rep, cases=None):
                 "constructed edge / corner / arc points accepted by the boundary's membership test; non-trivial = at least one boundary "
                 "point was obtained and the expression is not a bare constant interval; distinct = distinct (expression, rows, points)")
     if cases is None:
-        cases = [make_case(ctx, i) for i in range(ctx.scale(105, 1300))] + bad_interval_cases(ctx)
+        cases = [make_case(ctx, i) for i in range(ctx.scale(95, 1300))] + bad_interval_cases(ctx)
     evaluate(ctx, rep, cases)
     opaque_streams(ctx, rep)
     h = rep.hist
@@ -869,7 +927,7 @@ def replay(ctx, obj):
         mesh_case(rep, [[Fr(a) for a in v] for v in inp["vertices"]], inp["faces"], 0, 0, fixed=inp["point"])
         rep.case(dict(replay=inp), True)
         return common.finish(ctx, rep, lean)
-    if inp.get("case") and inp.get("source") in SAMPLER_SOURCES:
+    if inp.get("case"):
         evaluate(ctx, rep, [inp["case"]])
         return common.finish(ctx, rep, lean)
     # the failing row is replayed in one normal() call together with the first row of the original call (row pairing matters)
@@ -1000,7 +1058,7 @@ def poly_case(rep, verts, seed, n, fixed=None):
     return len(rows)
 
 
-def gen_polyhedron(rng):
+def gen_body(rng):
     """convex polyhedra with dyadic vertices: boxes and tetrahedra; faces as vertex index triples"""
     o = [Fr(rng.randint(-8, 8), 4) for _ in range(3)]
     if rng.random() < 0.5:
@@ -1018,6 +1076,52 @@ def gen_polyhedron(rng):
     if rng.random() < 0.5:
         F = [f[::-1] for f in F]     # either winding; the constructor calls fix_normals()
     return V, F
+
+
+def gen_polyhedron(rng):
+    """one to three separate convex solids in ONE mesh, every solid with its own face winding (outward or inward):
+    the constructor's fix_normals() has to orient every body on its own"""
+    if rng.random() < 0.25:
+        # a solid with a cavity: a box nested strictly inside a box, each with its own winding
+        o = [Fr(rng.randint(-8, 8), 4) for _ in range(3)]
+        ext = [Fr(rng.randint(8, 16), 4) for _ in range(3)]
+        lo_ = [Fr(rng.randint(2, 3), 8) for _ in range(3)]; hi_ = [Fr(rng.randint(5, 6), 8) for _ in range(3)]
+        tri12 = [[0, 1, 3], [0, 3, 2], [4, 6, 7], [4, 7, 5], [0, 4, 5], [0, 5, 1], [2, 3, 7], [2, 7, 6], [0, 2, 6], [0, 6, 4], [1, 5, 7], [1, 7, 3]]
+        V = [[o[0] + a * ext[0], o[1] + b * ext[1], o[2] + c_ * ext[2]] for a in (0, 1) for b in (0, 1) for c_ in (0, 1)]
+        V += [[o[0] + (lo_[0], hi_[0])[a] * ext[0], o[1] + (lo_[1], hi_[1])[b] * ext[1], o[2] + (lo_[2], hi_[2])[c_] * ext[2]]
+              for a in (0, 1) for b in (0, 1) for c_ in (0, 1)]
+        F = [f[::-1] if rng.random() < 0.5 else list(f) for f in [tri12]][0]
+        w1, w2 = rng.random() < 0.5, rng.random() < 0.5
+        F = [(f[::-1] if w1 else list(f)) for f in tri12] + [[i + 8 for i in (f[::-1] if w2 else f)] for f in tri12]
+        return V, F
+    nb = rng.choice([1, 1, 2, 2, 3])
+    V, F, shift = [], [], Fr(0)
+    for _ in range(nb):
+        v, f = gen_body(rng)
+        lo = min(a[0] for a in v); hi = max(a[0] for a in v)
+        off = shift - lo
+        base = len(V)
+        V += [[a[0] + off, a[1], a[2]] for a in v]
+        F += [[i + base for i in tri] for tri in f]
+        shift += (hi - lo) + Fr(rng.randint(4, 12), 4)
+    return V, F
+
+
+def bodies_of(V, F):
+    """connected components (vertex index sets) of the mesh"""
+    parent = list(range(len(V)))
+    def find(i):
+        while parent[i] != i:
+            parent[i] = parent[parent[i]]
+            i = parent[i]
+        return i
+    for f in F:
+        for i in f[1:]:
+            parent[find(i)] = find(f[0])
+    comps = {}
+    for f in F:
+        comps.setdefault(find(f[0]), []).append(f)
+    return list(comps.values())
 
 
 def planes_of(V, F):
@@ -1041,14 +1145,20 @@ def mesh_case(rep, V, F, seed, n, fixed=None):
     Z = tp.spaces.R3("z")
     P = TrimeshPolyhedron(Z, vertices=[[float(a) for a in v] for v in V], faces=F)
     B = P.boundary
-    planes = planes_of(V, F)
-    # distinct planes (two triangles of a box side share one)
-    uniq = []
-    for nrm, a in planes:
-        L = math.sqrt(sum(float(x) ** 2 for x in nrm))
-        key = tuple(round(float(x) / L, 9) for x in nrm) + (round(sum(float(nrm[j]) * float(a[j]) for j in range(3)) / L, 9),)
-        if key not in [k for k, _, _ in uniq]:
-            uniq.append((key, nrm, a))
+    # per body: distinct outward face planes (two triangles of a box side share one) and the bounding box
+    bodies = []
+    for faces_b in bodies_of(V, F):
+        idx = sorted({i for f in faces_b for i in f})
+        Vb = [V[i] for i in idx]
+        remap = {i: k_ for k_, i in enumerate(idx)}
+        uniq = []
+        for nrm, a in planes_of(Vb, [[remap[i] for i in f] for f in faces_b]):
+            L = math.sqrt(sum(float(x) ** 2 for x in nrm))
+            key = tuple(round(float(x) / L, 9) for x in nrm) + (round(sum(float(nrm[j]) * float(a[j]) for j in range(3)) / L, 9),)
+            if key not in [k for k, _, _ in uniq]:
+                uniq.append((key, nrm, a))
+        box = [(float(min(v[j] for v in Vb)), float(max(v[j] for v in Vb))) for j in range(3)]
+        bodies.append((uniq, box))
     scale = min(math.dist([float(x) for x in V[f[i]]], [float(x) for x in V[f[(i + 1) % 3]]]) for f in F for i in range(3))
     rows = []
     if fixed is not None:
@@ -1081,16 +1191,24 @@ def mesh_case(rep, V, F, seed, n, fixed=None):
         return len(rows)
 
     def contains(q):
-        vals = [sum(nrm[j] * (q[j] - a[j]) for j in range(3)) for _, nrm, a in uniq]
-        if any(v == 0 for v in vals):
-            return None
-        return all(v < 0 for v in vals)
+        # parity of the number of (convex) bodies that contain q: separate solids and cavities alike
+        res = False
+        for uniq, _ in bodies:
+            vals = [sum(nrm[j] * (q[j] - a[j]) for j in range(3)) for _, nrm, a in uniq]
+            if all(v <= 0 for v in vals):
+                if any(v == 0 for v in vals):
+                    return None
+                res = not res
+        return res
     for (p, src), v in zip(rows, nv):
         p32 = [f32(a) for a in p]
         dists = []
-        for _, nrm, a in uniq:
-            L = math.sqrt(sum(float(x) ** 2 for x in nrm))
-            dists.append(abs(sum(float(nrm[j]) * (p32[j] - float(a[j])) for j in range(3))) / L)
+        for uniq, box in bodies:
+            # distance to the body's box: a face plane of a far away body that happens to pass near p is no neighbour
+            far = math.sqrt(sum(max(lo - p32[j], 0.0, p32[j] - hi) ** 2 for j, (lo, hi) in enumerate(box)))
+            for _, nrm, a in uniq:
+                L = math.sqrt(sum(float(x) ** 2 for x in nrm))
+                dists.append(max(far, abs(sum(float(nrm[j]) * (p32[j] - float(a[j])) for j in range(3))) / L))
         inp = dict(base, point=[str(to_fr(a)) for a in p32], point_float=p32, source=src, _scale=scale)
         opaque_point_oracles(rep, "polyhedron", inp, p32, v, dists, contains, src)
     return len(rows)
